@@ -134,6 +134,10 @@ inline int run_all( std::istream& in, const CaseFn& fn, int timeout_s = 20 )
 {
     std::vector<std::pair<std::string, std::vector<Toks>>> cases;
     std::string                                            line;
+    // check.py re-runs a case that timed out (wall clock, so a loaded machine can cause it) alone with a
+    // scaled limit before it believes the timeout
+    if ( const char* e = getenv( "VH_TIMEOUT_SCALE" ) )
+        timeout_s *= std::max( 1, atoi( e ) );
     while ( std::getline( in, line ) ) {
         Toks t = split( line );
         if ( t.empty() || t[0][0] == '#' )
